@@ -1,1 +1,199 @@
-import BigtreeModel.Basic
+import BigtreeModel.Search
+import BigtreeProofs.Lemmas.Search
+import BigtreeProofs.Lemmas.SearchPaths
+import BigtreeProofs.Lemmas.SearchChecks
+import BigtreeProofs.Lemmas.QueryExamples
+/-!
+# C09 — search returns exactly the nodes that satisfy the query
+
+`R` is the searched tree, `a` the address of the start node, `sep` the tree's separator.
+`searched R a md` is the list of nodes of the subtree at `a` whose depth is within `md`
+(`md = 0`: no limit), in pre-order; every search function, written the way the Python is written
+(`BigtreeModel/Search.lean`), is proved equal to its specification for all inputs.
+-/
+
+namespace C09
+open Query Search
+
+/-- `findall` = the nodes of the searched subtree (within `max_depth`) that satisfy the
+    condition, in pre-order — or `SearchError` when the count contract is violated. -/
+theorem findall_eq (R : Tree) (a : Addr) (cond : Addr → Bool) (md mn mx : Nat) :
+    findall R a cond md mn mx =
+      if (mn ≠ 0 ∧ ((searched R a md).filter cond).length < mn)
+          ∨ (mx ≠ 0 ∧ ((searched R a md).filter cond).length > mx)
+      then .error .search else .ok ((searched R a md).filter cond) :=
+  findall_eq_spec R a cond md mn mx
+
+example : findall exNamed [] (nameIs exNamed ['a', 'b']) 0 0 0 = .ok [[0], [2, 0]] := rfl
+example : findall exNamed [] (nameIs exNamed ['a', 'b']) 2 0 0 = .ok [[0]] := rfl
+example : findall exNamed [] (nameIs exNamed ['a', 'b']) 0 3 0 = .error .search := rfl
+
+/-- the count contract: `SearchError` exactly when `min_count` or `max_count` (non-zero) is
+    violated by the number of matches; no other failure. -/
+theorem findall_count_contract (R : Tree) (a : Addr) (cond : Addr → Bool) (md mn mx : Nat) :
+    (findall R a cond md mn mx = .error .search ↔
+      (mn ≠ 0 ∧ ((searched R a md).filter cond).length < mn)
+        ∨ (mx ≠ 0 ∧ ((searched R a md).filter cond).length > mx)) ∧
+    (∀ e, findall R a cond md mn mx = .error e → e = .search) := by
+  rw [findall_eq_spec]
+  constructor
+  · constructor
+    · intro h
+      by_cases hc : (mn ≠ 0 ∧ ((searched R a md).filter cond).length < mn)
+          ∨ (mx ≠ 0 ∧ ((searched R a md).filter cond).length > mx)
+      · exact hc
+      · rw [if_neg hc] at h; cases h
+    · intro hc; rw [if_pos hc]
+  · intro e h
+    split at h
+    · cases h; rfl
+    · cases h
+
+example : findall exNamed [] (fun _ => true) 0 0 3 = .error .search := rfl
+
+/-- each match once: the result has no repetition, and its members are exactly the existing
+    nodes at or below the start node, within the depth limit, that satisfy the condition. -/
+theorem findall_nodup (R : Tree) (a : Addr) (cond : Addr → Bool) (md mn mx : Nat) (l : List Addr)
+    (h : findall R a cond md mn mx = .ok l) :
+    l.Nodup ∧ ∀ x, x ∈ l ↔
+      (∃ y, x = a ++ y) ∧ (sub R x).isSome ∧ (md = 0 ∨ depth x ≤ md) ∧ cond x = true := by
+  rw [findall_eq_spec] at h
+  split at h
+  · cases h
+  · simp only [Except.ok.injEq] at h
+    subst h
+    refine ⟨List.Sublist.nodup List.filter_sublist
+      (List.Sublist.nodup List.filter_sublist (subtreeLocs_nodup R a)), ?_⟩
+    intro x
+    simp only [searched, List.mem_filter, mem_subtreeLocs_iff, depth_eq_length, Bool.or_eq_true,
+      beq_iff_eq, decide_eq_true_eq]
+    constructor
+    · rintro ⟨⟨⟨y, rfl, hs⟩, hd⟩, hc⟩; exact ⟨⟨y, rfl⟩, hs, hd, hc⟩
+    · rintro ⟨⟨y, rfl⟩, hs, hd, hc⟩; exact ⟨⟨⟨y, rfl, hs⟩, hd⟩, hc⟩
+
+example : ∃ l, findall exNamed [0] (fun _ => true) 0 0 0 = .ok l ∧ l = [[0], [0, 0]] := ⟨_, rfl, rfl⟩
+
+/-- `find`: the node when exactly one matches, `None` when none does, `SearchError` when
+    several do. -/
+theorem find_eq (R : Tree) (a : Addr) (cond : Addr → Bool) (md : Nat) :
+    find R a cond md =
+      match (searched R a md).filter cond with
+      | [] => .ok none
+      | [x] => .ok (some x)
+      | _ :: _ :: _ => .error .search :=
+  find_eq_spec R a cond md
+
+example : find exNamed [] (nameIs exNamed ['b', 'a']) 0 = .ok (some [2]) := rfl
+example : find exNamed [] (nameIs exNamed ['c']) 0 = .ok none := rfl
+example : find exNamed [] (nameIs exNamed ['b']) 0 = .error .search := rfl
+
+/-- `find_names` / `find_name`: the instance for "the node's name equals `name`". -/
+theorem find_names_eq (R : Tree) (a : Addr) (name : Str) (md : Nat) :
+    findNames R a name md = .ok ((searched R a md).filter fun b => nameAt R b == some name) ∧
+    findName R a name md =
+      match (searched R a md).filter fun b => nameAt R b == some name with
+      | [] => .ok none
+      | [x] => .ok (some x)
+      | _ :: _ :: _ => .error .search := by
+  constructor
+  · unfold findNames; rw [findall_eq_spec]; simp; rfl
+  · exact find_eq_spec R a _ md
+
+example : findNames exNamed [] ['b'] 0 = .ok [[0, 0], [1]] := rfl
+
+/-- `find_attrs` / `find_attr`: the instance for "attribute `k` (default `None`) `==` `v`". -/
+theorem find_attrs_eq (R : Tree) (a : Addr) (k : Str) (v : Val) (md : Nat) :
+    findAttrs R a k v md =
+      .ok ((searched R a md).filter fun b => pyEq (((attrsAt R b).lookup k).getD .null) v) ∧
+    findAttr R a k v md =
+      match (searched R a md).filter fun b => pyEq (((attrsAt R b).lookup k).getD .null) v with
+      | [] => .ok none
+      | [x] => .ok (some x)
+      | _ :: _ :: _ => .error .search := by
+  constructor
+  · unfold findAttrs; rw [findall_eq_spec]; simp; rfl
+  · exact find_eq_spec R a _ md
+
+example : findAttrs exNamed [] ['k'] (.int 1) 0 = .ok [[], [0, 0], [2, 0]] := rfl
+example : findAttrs exNamed [] ['k'] .null 0 = .ok [[0], [2]] := rfl
+
+/-- `find_paths` / `find_path`: the instance for "the node's `path_name`
+    (= `sep + sep.join(names from the root)`) ends with the query stripped of trailing separator
+    characters" — a *string* suffix; no depth limit. -/
+theorem find_paths_eq (R : Tree) (sep : Str) (a : Addr) (q : Str) :
+    findPaths R sep a q =
+      .ok ((subtreeLocs R a).filter fun b =>
+        (rstrip sep q).isSuffixOf (sep ++ join sep (pathNames R b))) ∧
+    findPath R sep a q =
+      match (subtreeLocs R a).filter fun b =>
+        (rstrip sep q).isSuffixOf (sep ++ join sep (pathNames R b)) with
+      | [] => .ok none
+      | [x] => .ok (some x)
+      | _ :: _ :: _ => .error .search := by
+  have hs : searched R a 0 = subtreeLocs R a := by simp [searched]
+  have hp : pathEndsWith R sep q = fun b => (rstrip sep q).isSuffixOf (sep ++ join sep (pathNames R b)) := by
+    funext b; simp [pathEndsWith, endsWith, pathName_eq]
+  constructor
+  · unfold findPaths; rw [findall_eq_spec, hs, hp]; simp
+  · unfold findPath; rw [find_eq_spec, hs, hp]; rfl
+
+-- "b" is a string suffix of ".../ab" as well
+example : findPaths exNamed ['/'] [] ['b'] = .ok [[0], [0, 0], [1], [2, 0]] := rfl
+example : findPaths exNamed ['/'] [] ['/', 'b', '/'] = .ok [[0, 0], [1]] := rfl
+example : findPath exNamed ['/'] [] ['a', '/', 'b'] = .ok (some [1]) := rfl
+
+/-- `find_children`: exactly the children of the start node (the existing addresses `a ++ [k]`)
+    that satisfy the condition, in order, with the count contract. -/
+theorem find_children_eq (R : Tree) (a : Addr) (cond : Addr → Bool) (mn mx : Nat) :
+    findChildren R a cond mn mx =
+      (if (mn ≠ 0 ∧ ((childrenOf R a).filter cond).length < mn)
+          ∨ (mx ≠ 0 ∧ ((childrenOf R a).filter cond).length > mx)
+      then .error .search else .ok ((childrenOf R a).filter cond)) ∧
+    (∀ x, x ∈ childrenOf R a ↔ ∃ k, x = a ++ [k] ∧ (sub R x).isSome) ∧
+    (childrenOf R a).Nodup :=
+  ⟨findChildren_eq_spec R a cond mn mx, mem_childrenOf_iff R a, childrenOf_nodup R a⟩
+
+example : findChildren exNamed [] (fun b => b != [1]) 0 0 = .ok [[0], [2]] := rfl
+example : findChildren exNamed [] (fun _ => true) 0 2 = .error .search := rfl
+
+/-- on a BinaryNode, `find_children` looks at the two slots and skips the empty ones: it returns
+    the matching children of the generic view. -/
+theorem find_children_binary_eq (cond : Nat → Bool) (i : Nat) (n : Str) (at' : Attrs) (l r : BTree) :
+    (findChildrenB cond (.node i n at' l r)).flatMap BTree.toTrees =
+      (l.toTrees ++ r.toTrees).filter fun c => cond c.id :=
+  findChildrenB_eq cond i n at' l r
+
+example : (findChildrenB (fun _ => true) exBinNamed).map (fun b => b.toTrees.map Tree.id) = [[1]] := by
+  decide
+
+/-- `find_full_path` finds a node iff the full path exists: with a one-character separator that
+    occurs in no name and sibling-unique names, the result is the node `v` exactly when `v` exists
+    and the names from the root to `v`, joined by the separator, are the query without its
+    leading / trailing separators. -/
+theorem find_full_path_iff (R : Tree) (s : Char) (a : Addr) (q : Str)
+    (hsep : ∀ (x : Addr) (t : Tree), sub R x = some t → s ∉ t.name) (hu : SibUnique R) (v : Addr) :
+    findFullPath R [s] a q = .ok (some v) ↔
+      (sub R v).isSome ∧ join [s] (pathNames R v) = lstrip [s] (rstrip [s] q) :=
+  findFullPath_iff s a q hsep hu v
+
+example : (∀ (x : Addr) (t : Tree), sub exNamed x = some t → '/' ∉ t.name) ∧ SibUnique exNamed :=
+  ⟨noSep_of_check '/' exNamed (by decide), sibUnique_of_check exNamed (by decide)⟩
+example : findFullPath exNamed ['/'] [1] ['/', 'a', '/', 'b', 'a', '/', 'a', 'b', '/'] = .ok (some [2, 0]) := rfl
+example : findFullPath exNamed ['/'] [] ['a', '/', 'b', '/', 'b'] = .ok none := rfl
+example : findFullPath exNamed ['/'] [] ['b'] = .error .value := rfl
+
+/-- `find_relative_paths`: the accumulator-style `resolve` computes exactly what the path
+    denotes (`resolveSpec`: `.` stay, `..` parent or error at the root, `*` all children in
+    order, a name that child, a missing name an error unless the query has a wildcard); the
+    public function adds the count contract. -/
+theorem relative_eq_spec (R : Tree) (wild : Bool) (cs : List Str) (a : Addr) (acc : List Addr) :
+    resolve R wild cs a acc = (resolveSpec R wild cs a).map (acc ++ ·) :=
+  resolve_eq_spec R wild cs a acc
+
+example : findRelativePaths exNamed ['/'] [0, 0] ['.', '.', '/', '.', '.', '/', '*'] 0 0
+    = .ok [[0], [1], [2]] := rfl
+example : findRelativePaths exNamed ['/'] [0] ['.', '.', '/', '.', '.'] 0 0 = .error .search := rfl
+example : findRelativePaths exNamed ['/'] [] ['*', '/', 'a', 'b'] 0 0 = .ok [[2, 0]] := rfl
+example : findRelativePaths exNamed ['/'] [] ['c'] 0 0 = .error .search := rfl
+
+end C09
